@@ -4,6 +4,7 @@ package c05
 
 import (
 	"fmt"
+	"sort"
 	"testing"
 
 	"pgregory.net/rapid"
@@ -50,11 +51,32 @@ func genCase(t *rapid.T) Case {
 	c.K = rapid.IntRange(1, 6).Draw(t, "k")
 	c.LastActive = rapid.Bool().Draw(t, "lastactive")
 	c.FPI = rapid.IntRange(1, c.K+1).Draw(t, "fpi")
-	sorted := rapid.IntRange(0, 3).Draw(t, "fracmode")
+	sorted := rapid.IntRange(0, 4).Draw(t, "fracmode")
+	// rank of every document in ID order (for the interval-structured modes)
+	rank := make([]int, n)
+	{
+		idx := make([]int, n)
+		for i := range idx {
+			idx[i] = i
+		}
+		sort.Slice(idx, func(a, b int) bool { return c.Corpus[idx[a]].ID.Less(c.Corpus[idx[b]].ID) })
+		for r, i := range idx {
+			rank[i] = r
+		}
+	}
+	wide := rapid.IntRange(0, c.K-1).Draw(t, "wide")
 	for i := 0; i < n; i++ {
 		switch sorted {
 		case 3: // time-sliced fractions (ranges barely overlap)
 			c.FracOf = append(c.FracOf, int(c.Corpus[i].ID.MID%uint64(c.K)))
+		case 2, 4: // contiguous runs of the ID order: disjoint, narrow ranges ...
+			f := rank[i] * c.K / n
+			// ... plus (mode 4) one wide fraction that takes documents from everywhere, so that
+			// it contains the ranges of the narrow ones
+			if sorted == 4 && rapid.IntRange(0, 3).Draw(t, "towide") == 3 {
+				f = wide
+			}
+			c.FracOf = append(c.FracOf, f)
 		default: // arbitrary assignment: arbitrarily overlapping ranges
 			c.FracOf = append(c.FracOf, rapid.IntRange(0, c.K-1).Draw(t, "frac"))
 		}
@@ -80,6 +102,14 @@ func genCase(t *rapid.T) Case {
 	nreq := rapid.IntRange(1, 5).Draw(t, "nreq")
 	for i := 0; i < nreq; i++ {
 		r := Req{R: gen.SearchReq(t, c.Corpus, 4), Style: gen.Style(t), Aggs: gen.AggSpecs(t, 2)}
+		if rapid.IntRange(0, 2).Draw(t, "earlystop") == 2 {
+			// the early-termination rule only runs without total/histogram/aggregations
+			r.R.WithTotal, r.R.Interval, r.Aggs = false, 0, nil
+			r.R.Limit = rapid.IntRange(1, 4).Draw(t, "smalllimit")
+			if rapid.Bool().Draw(t, "all") {
+				r.R.Q = model.All()
+			}
+		}
 		if c.Level == "cluster" {
 			np := rapid.IntRange(1, 4).Draw(t, "npages")
 			off := rapid.IntRange(0, 3).Draw(t, "off0")
